@@ -13,8 +13,9 @@ from ..terms import Lin, ZERO
 
 HUGE = 0x10000000
 EB = {'i8': 1, 'i16': 2, 'i32': 4}
-CONV_RE = re.compile(r'^_ST_PRIVATE::(\w+)_convert_from_(\w+)\(')
-MEAS_RE = re.compile(r'^_ST_PRIVATE::(\w+)_measure_from_(\w+)\(')
+# (a template instantiation is spelled with its return type in front and its arguments behind the name)
+CONV_RE = re.compile(r'^(?:[\w:<>, \*&]+ )?_ST_PRIVATE::(\w+)_convert_from_([a-z0-9_]+?)(<[^()]*>)?\(')
+MEAS_RE = re.compile(r'^(?:[\w:<>, \*&]+ )?_ST_PRIVATE::(\w+)_measure_from_([a-z0-9_]+?)(<[^()]*>)?\(')
 
 
 class ConvHooks(Hooks):
@@ -162,10 +163,10 @@ def discover(m, F, run=None, rule=None):
         f = m.func(name)
         mt = CONV_RE.match(f.dem)
         if mt:
-            conv[(mt.group(1), mt.group(2))] = f
+            conv[(mt.group(1), mt.group(2), mt.group(3) or '')] = f
         mt = MEAS_RE.match(f.dem)
         if mt:
-            meas[(mt.group(1), mt.group(2))] = f
+            meas[(mt.group(1), mt.group(2), mt.group(3) or '')] = f
     pairs = []
     ODD[0] = 0
     ODD_M[0] = 0
